@@ -14,7 +14,7 @@ env.setup()
 from .. import snap  # noqa: E402
 from ..driver import World  # noqa: E402
 from ..ops import apply_op  # noqa: E402
-from ..program import DTS, DryWorld, abstract_state, gen_op, init_value_ops, swarm  # noqa: E402
+from ..program import DTS, DryWorld, abstract_state, gen_node_view, gen_op, init_value_ops, swarm  # noqa: E402
 from ..runops import do_abort, do_persist, do_run  # noqa: E402
 from ..seedtree import stream  # noqa: E402
 from ..shapes import gen_any_shape  # noqa: E402
@@ -79,6 +79,7 @@ def generate(seed, tier="quick"):
             if kind == "persist":
                 ops.append({"op": "persist", "how": o.choice(["pickle", "deepcopy"])})
                 faults_left -= 1
+                dw.epoch += 1  # view handles of the replaced module are gone
             elif dw.ref.recordings:
                 op = gen_run(o, dw, cfg, allow_ckpt=False)
                 op.update({"op": "abort", "point": o.choice(ABORT_POINTS), "use_params": False})
@@ -88,6 +89,29 @@ def generate(seed, tier="quick"):
         if runs < 2 and k > 0.9 and dw.ref.recordings:
             ops.append(gen_run(o, dw, cfg))
             runs += 1
+            continue
+        if k > 0.82 and k <= 0.9:
+            # view objects kept in variables by the session and used by later calls (object identity is part of a history)
+            valid = [i_ for i_, h_ in dw.handles.items() if h_["epoch"] == dw.epoch]
+            if not valid or o.random() < 0.35:
+                op = {"op": "make_handle", "id": o.randrange(3), "view": gen_node_view(o, dw.ref)}
+            else:
+                hv = [["handle", o.choice(valid)]]
+                kind = o.choice(["group", "set", "record", "stimulate", "clamp", "move"])
+                if kind == "group":
+                    op = {"op": "group", "view": hv, "name": o.choice(["g1", "g2", "g3"])}
+                elif kind == "set":
+                    op = {"op": "set", "view": hv, "key": o.choice(["radius", "length", "capacitance", "axial_resistivity", "v"]), "val": {"seed": o.randrange(1 << 30)}}
+                elif kind == "record":
+                    op = {"op": "record", "view": hv, "state": "v"}
+                elif kind == "stimulate":
+                    op = {"op": "stimulate", "view": hv, "len": cfg["L"], "seed": o.randrange(1 << 30), "two_d": False}
+                elif kind == "clamp":
+                    op = {"op": "clamp", "view": hv, "state": "v", "len": cfg["L"], "seed": o.randrange(1 << 30), "two_d": False}
+                else:
+                    op = {"op": "move", "view": hv, "xyz": [round(o.uniform(-9, 9), 2) for _ in range(3)]}
+            if dw.dry_apply(op) != "unspec":
+                ops.append(op)
             continue
         op = gen_op(o, dw, weights, cfg)
         if op is None:
